@@ -109,6 +109,24 @@ func tinyAlphabet() (out []entry) {
 	return out
 }
 
+// curated holds the examples of AGHTechDoc (in the names of the alphabet) and
+// the hard cases named in the design.
+func curated() [][]entry {
+	return [][]entry{
+		{{"a.test", "1.1.1.1"}},
+		{{"a.test", "::1"}},
+		{{"x.a.test", "a.test"}},
+		{{"x.a.test", "a.test"}, {"a.test", "1.1.1.1"}},
+		{{"*.test", "1.1.1.1"}, {"a.test", "a.test"}},
+		{{"a.test", "1.1.1.1"}, {"a.test", "AAAA"}},
+		{{"a.test", "A"}},
+		{{"*.test", "1.1.1.1"}, {"*.test", "2.2.2.2"}},
+		{{"*.a.test", "x.b.test"}, {"*.b.test", "y.a.test"}},
+		{{"*.a.test", "b.test"}, {"x.a.test", "1.1.1.1"}},
+		{{"*.test", "a.test"}, {"a.test", "b.test"}, {"b.test", "a.test"}},
+	}
+}
+
 type query struct {
 	Host string
 	QT   uint16
@@ -487,6 +505,14 @@ func run(c *lib.Ctx) {
 			}
 		}()
 		idx, mine := 0, 0
+		if c.ShardI == 0 {
+			// The documented examples and the named hard cases first, so that a
+			// violation of a class is reported on a readable table.
+			for _, t := range curated() {
+				e.checkTable(t)
+				e.wireTable(t)
+			}
+		}
 		for _, p := range hostPlans(c.Tier) {
 			if os.Getenv("C06_PART") == "wire" { // development switch
 				break
@@ -585,14 +611,14 @@ func main() {
 				"distinct_nontrivial":              m.Distinct["nontrivial"],
 				"distinct_wire_outcomes":           m.Distinct["wire"],
 				"order_dependent_cname_tie_exempt": m.Counters["order_dependent_cname_tie_exempt"],
-				"rule": "part 1: every ordered table of <=3 entries over 7 patterns (a.test b.test x.a.test *.test *.a.test *.b.test *.x.a.test) x 11 answers (1.1.1.1 2.2.2.2 ::1 A AAAA a.test b.test x.a.test x.b.test y.a.test c.other) + wildcard-onto-itself = 81 entries, plus size 4 over a 35-entry sub-alphabet (thorough: <=4 over the 81 entries plus size 5 over a 25-entry sub-alphabet); 9 names x A/AAAA/TXT; every permutation is a fresh filtering.New and must agree with the others. part 2: tables of <=2 entries over the 81 entries and of 3 over the 35-entry sub-alphabet (thorough: <=3 over the 81), each in 2 orders, x the same queries, through dnsforward with a mock upstream in 3 modes. non-trivial = distinct resolution path shapes (kind/exactness/shadowing/tie per step and final outcome, per query type) of queries matched by the table",
+				"rule":                             "part 1: every ordered table of <=3 entries over 7 patterns (a.test b.test x.a.test *.test *.a.test *.b.test *.x.a.test) x 11 answers (1.1.1.1 2.2.2.2 ::1 A AAAA a.test b.test x.a.test x.b.test y.a.test c.other) + wildcard-onto-itself = 81 entries, plus size 4 over a 35-entry sub-alphabet (thorough: <=4 over the 81 entries plus size 5 over a 25-entry sub-alphabet); 9 names x A/AAAA/TXT; every permutation is a fresh filtering.New and must agree with the others. part 2: tables of <=2 entries over the 81 entries and of 3 over the 35-entry sub-alphabet (thorough: <=3 over the 81), each in 2 orders, x the same queries, through dnsforward with a mock upstream in 3 modes. non-trivial = distinct resolution path shapes (kind/exactness/shadowing/tie per step and final outcome, per query type) of queries matched by the table",
 			}
 		},
 		Assumptions: []string{
 			"exact-over-wildcard shadowing among address entries is accepted both per kind (an exact A entry hides a wildcard AAAA entry) and per requested family (it does not); the statement allows both readings",
 			"a pass-through exception ('name to itself', 'A', 'AAAA') met behind a CNAME may pass the whole request or only the canonical name to the upstream",
 			"several CNAME entries with different targets for one pattern: either may win, also depending on the order (a CNAME is single-valued, the documents define no winner)",
-			"on a CNAME cycle only termination, no addresses and a canonical name from the chain (or pass-through) are demanded",
+			"on a CNAME cycle only termination, no addresses and a canonical name from the chain other than the queried name (or pass-through) are demanded",
 			"a call that does not return within 5 s is non-terminating (normal cost is microseconds)",
 		},
 	})
